@@ -56,7 +56,7 @@ type HistCase struct {
 
 func (c *HistCase) ID() string { return strings.Join(c.Ops, " ") }
 
-var seqOps = []string{"FC(1,a)", "FC(1,b)", "FC(2,a)", "FC(1,./a)", "CC(1)", "CC(1,a)", "CC(1,b)", "CC(2)", "DBG(1)", "CHG(a)", "FAIL(a)", "OK(a)"}
+var seqOps = []string{"FC(1,a)", "FC(1,b)", "FC(2,a)", "FC(1,./a)", "CC(1)", "CC(1,a)", "CC(1,b)", "CC(1,a,b)", "CC(1,c,b)", "CC(1,b,a)", "CC(2)", "DBG(1)", "CHG(a)", "FAIL(a)", "OK(a)"}
 
 type mEntry struct {
 	id  int // identity class of the cached template
@@ -158,8 +158,10 @@ func (c *HistCase) Exec(t *eng.T) {
 				w.sets[si].CleanCache()
 				m.cache[si] = map[string]mEntry{}
 			} else {
-				w.sets[si].CleanCache(args[1])
-				delete(m.cache[si], px.AbsRule("", args[1]))
+				w.sets[si].CleanCache(args[1:]...)
+				for _, n := range args[1:] {
+					delete(m.cache[si], px.AbsRule("", n))
+				}
 			}
 			trace = append(trace, op)
 		case "DBG":
@@ -389,7 +391,7 @@ func run(r *eng.Runner) {
 	if !r.Quick() {
 		depth = 6
 	}
-	r.Group("sequential-histories", "c20.hist", fmt.Sprintf("every history of 0..%d operations over %d operations {FromCache(set, name) incl. a second spelling of the same file, CleanCache(), CleanCache(name), toggle Debug, change a file's content, make a file fail / work again} on two sets, replayed on the real sets; every return value (error, object identity class, rendered content incl. the set's own global) and the loader's fetch count per call compared with the map model", depth, len(seqOps)))
+	r.Group("sequential-histories", "c20.hist", fmt.Sprintf("every history of 0..%d operations over %d operations {FromCache(set, name) incl. a second spelling of the same file, CleanCache(), CleanCache(name), CleanCache(name, name) incl. a name that is not cached, toggle Debug, change a file's content, make a file fail / work again} on two sets, replayed on the real sets; every return value (error, object identity class, rendered content incl. the set's own global) and the loader's fetch count per call compared with the map model", depth, len(seqOps)))
 	enum.Seqs(len(seqOps), depth, func(idx []int) bool {
 		ops := make([]string, len(idx))
 		for i, x := range idx {
